@@ -362,6 +362,7 @@ class Tokenizer:
                     last_token
                     and isinstance(token, CitationToken)
                     and token_is_from_nominative_reporter(last_token)
+                    and not token_is_from_nominative_reporter(token)
                 ):
                     # if a token has overlapping matches between a nominative
                     # reporter and another type of case citation, prefer the
